@@ -250,10 +250,10 @@ func (m *udpModel) stopFn(c *Ctx) func(*ssa.Function) bool {
 		if eng.PkgPathOf(h) != eng.Mod+"/service" {
 			return true
 		}
-		r := eng.Root(h)
-		if r.Signature.Recv() != nil {
-			t := eng.TypeName(r.Signature.Recv().Type())
-			if t == m.mapT || t == m.connT {
+		// the model's own anchors are summarised by their role, not entered; other methods of the table / association types
+		// (helpers extracted from them) are ordinary region members
+		for _, a := range []*ssa.Function{m.get, m.add, m.set, m.del, m.closeAll, m.newMap, m.connWrite, m.connRead} {
+			if a != nil && (h == a || eng.Root(h) == a) {
 				return true
 			}
 		}
